@@ -1,11 +1,12 @@
 import UralModel.Lemmas.Quote
 import UralModel.Lemmas.QuoteIdem
+import UralModel.Lemmas.QuoteUpper
 import UralModel.Gen.QuoteTables
 /-!
 # C14 — Safe quoting/unquoting preserves decoded content and delimiters
 -/
 namespace Ural.Props.C14
-open Ural Ural.Py Ural.Quote
+open Ural Ural.Py Ural.Quote Ural.QuoteUpper
 
 /-! ## table obligations: re-checked by `decide` whenever the tables are regenerated -/
 
@@ -206,6 +207,229 @@ theorem unquote_idempotent (U : List UInt8) (hU : (0x25 : UInt8) ∈ U) (hA : As
   have h := (unquote_tokens U hU s).1
   unfold safelyUnquote at h ⊢
   rw [h, escapeRaw_unquoteToks, unquoteToks_idem U hU hA]
+
+/-! ## upper_quoted
+
+`upper_quoted = LOWERCASE_QUOTED_RE.sub(upper_match, ·)`: the function `canonicalize_url` and
+`normalize_url` apply to the whole URL before parsing it (`Model/Canonicalize.lean`
+`cleanUrl`, `Model/Normalize.lean` `preClean` call this very `upperQuoted`).  The clause "only
+changes the case of hex digits inside valid escapes" is stated on plain string
+decompositions, not on the model's tokens: an escape of `s` is any occurrence of `%` followed
+by two hex digits, `s = a ++ %h1h2 ++ b`. -/
+
+/-- position `i` of `s` holds one of the two hex digits of a valid escape of `s` -/
+def EscDigitAt (s : Str) (i : Nat) : Prop :=
+  ∃ a h1 h2 b, s = a ++ '%' :: h1 :: h2 :: b ∧ isHexDigit h1 = true ∧ isHexDigit h2 = true ∧
+    (i = a.length + 1 ∨ i = a.length + 2)
+
+/-- the scan of the output is the scan of the input with the hex digits of every escape
+upper-cased: no escape appears, disappears or moves, raw characters and stray `%` stay -/
+theorem upper_tokens (s : Str) : tokens (upperQuoted s) = (tokens s).map upperTok :=
+  tokens_upperQuoted s
+
+/-- same length -/
+theorem upper_length (s : Str) : (upperQuoted s).length = s.length := length_upperQuoted s
+
+theorem getElem?_mid1 {α : Type} (a : List α) (x y z : α) (b : List α) :
+    (a ++ x :: y :: z :: b)[a.length + 1]? = some y := by
+  simp
+
+theorem getElem?_mid2 {α : Type} (a : List α) (x y z : α) (b : List α) :
+    (a ++ x :: y :: z :: b)[a.length + 2]? = some z := by
+  simp
+
+/-- (a, inside) at the position of a hex digit of a valid escape the output holds that digit
+upper-cased -/
+theorem upper_inside (s : Str) (i : Nat) (h : EscDigitAt s i) :
+    (upperQuoted s)[i]? = s[i]?.map upperChar := by
+  obtain ⟨a, h1, h2, b, rfl, hh1, hh2, hi⟩ := h
+  rw [upperQuoted_append_esc hh1 hh2]
+  have hl := length_upperQuoted a
+  rcases hi with rfl | rfl
+  · rw [getElem?_mid1, ← hl, getElem?_mid1]; rfl
+  · rw [getElem?_mid2, ← hl, getElem?_mid2]; rfl
+
+/-- (a, outside) at every other position the output holds the character of the input -/
+theorem upper_outside (s : Str) (i : Nat) (h : ¬ EscDigitAt s i) :
+    (upperQuoted s)[i]? = s[i]? := by
+  have hr := render_map_upperTok (tokens s)
+  rw [Quote.render_tokens] at hr
+  have hlen := length_upMask (tokens s)
+  rw [Quote.render_tokens] at hlen
+  show (render ((tokens s).map upperTok))[i]? = s[i]?
+  rw [hr, applyMask, List.getElem?_zipWith]
+  cases hm : (upMask (tokens s))[i]? with
+  | none =>
+    have : s[i]? = none := by
+      rw [List.getElem?_eq_none_iff] at hm ⊢; omega
+    simp [this]
+  | some m =>
+    cases m with
+    | false => cases hs : s[i]? <;> simp
+    | true =>
+      exfalso
+      apply h
+      obtain ⟨ta, h1, h2, tb, e, hi⟩ := upMask_true _ _ hm
+      have hw := wf_tokens s (.esc h1 h2) (by rw [e]; simp)
+      refine ⟨render ta, h1, h2, render tb, ?_, hw.1, hw.2, hi⟩
+      conv => lhs; rw [← Quote.render_tokens s, e]
+      simp [render_append, renderTok]
+
+/-- (a) the output equals the input up to ASCII case, everywhere -/
+theorem upper_caseless (s : Str) : (upperQuoted s).map upperChar = s.map upperChar := by
+  have : ∀ ts : List Tok, (render (ts.map upperTok)).map upperChar = (render ts).map upperChar := by
+    intro ts
+    induction ts with
+    | nil => rfl
+    | cons t r ih =>
+      simp only [List.map_cons, render_cons, List.map_append, ih]
+      cases t <;> simp [upperTok, renderTok, upperChar_idem]
+  have h := this (tokens s)
+  rwa [Quote.render_tokens] at h
+
+/-- (a) a character that is not a hex digit — every delimiter, `%`, every non-ASCII
+character — is where it was, and nothing else is there -/
+theorem upper_nonhex_fixed (s : Str) (i : Nat) (c : Char) (hc : isHexDigit c = false) :
+    (upperQuoted s)[i]? = some c ↔ s[i]? = some c := by
+  have hcase : (upperQuoted s)[i]?.map upperChar = s[i]?.map upperChar := by
+    rw [← List.getElem?_map, ← List.getElem?_map, upper_caseless]
+  by_cases h : EscDigitAt s i
+  · -- both sides are false: position `i` holds a hex digit in both strings
+    have hin := upper_inside s i h
+    obtain ⟨a, h1, h2, b, rfl, hh1, hh2, hi⟩ := h
+    have hs : ∃ d, (a ++ '%' :: h1 :: h2 :: b)[i]? = some d ∧ isHexDigit d = true := by
+      rcases hi with rfl | rfl
+      · exact ⟨h1, getElem?_mid1 _ _ _ _ _, hh1⟩
+      · exact ⟨h2, getElem?_mid2 _ _ _ _ _, hh2⟩
+    obtain ⟨d, hd, hhd⟩ := hs
+    rw [hin, hd]
+    constructor
+    · intro e
+      simp only [Option.map_some, Option.some.injEq] at e
+      rw [← e, isHexDigit_upperChar, hhd] at hc
+      cases hc
+    · intro e
+      simp only [Option.some.injEq] at e
+      rw [e, hc] at hhd
+      cases hhd
+  · rw [upper_outside s i h]
+
+/-- (b) every valid escape of the output — any `%` followed by two hex digits in it — has
+upper-case hex digits -/
+theorem upper_escapes_upper (s a b : Str) (h1 h2 : Char)
+    (h : upperQuoted s = a ++ '%' :: h1 :: h2 :: b)
+    (hh1 : isHexDigit h1 = true) (hh2 : isHexDigit h2 = true) :
+    isUpperHex h1 = true ∧ isUpperHex h2 = true := by
+  have ht := upper_tokens s
+  rw [h, tokens_append_esc hh1 hh2] at ht
+  have hm : Tok.esc h1 h2 ∈ (tokens s).map upperTok := by rw [← ht]; simp
+  simp only [List.mem_map] at hm
+  obtain ⟨t, htm, e⟩ := hm
+  cases t with
+  | raw c => simp [upperTok] at e
+  | stray => simp [upperTok] at e
+  | esc g1 g2 =>
+    simp only [upperTok, Tok.esc.injEq] at e
+    have hw := wf_tokens s _ htm
+    rw [← e.1, ← e.2]
+    exact ⟨isUpperHex_upperChar hw.1, isUpperHex_upperChar hw.2⟩
+
+/-- the escapes of the output are where the escapes of the input are -/
+theorem upper_same_escapes (s : Str) (i : Nat) : EscDigitAt (upperQuoted s) i ↔ EscDigitAt s i := by
+  constructor
+  · rintro ⟨a, h1, h2, b, e, hh1, hh2, hi⟩
+    have ht := upper_tokens s
+    rw [e, tokens_append_esc hh1 hh2] at ht
+    obtain ⟨ta, tr, e1, ea, er⟩ := List.map_eq_append_iff.1 ht.symm
+    obtain ⟨t, tb, e2, et, eb⟩ := List.map_eq_cons_iff.1 er
+    subst e2
+    have hla : (render ta).length = a.length := by
+      rw [← length_render_map_upperTok, ea, Quote.render_tokens]
+    cases t with
+    | raw c => simp [upperTok] at et
+    | stray => simp [upperTok] at et
+    | esc g1 g2 =>
+      have hw := wf_tokens s (.esc g1 g2) (by rw [e1]; simp)
+      refine ⟨render ta, g1, g2, render tb, ?_, hw.1, hw.2, by rw [hla]; exact hi⟩
+      conv => lhs; rw [← Quote.render_tokens s, e1]
+      simp [render_append, renderTok]
+  · rintro ⟨a, h1, h2, b, rfl, hh1, hh2, hi⟩
+    refine ⟨upperQuoted a, upperChar h1, upperChar h2, upperQuoted b,
+      upperQuoted_append_esc hh1 hh2 a b, by rw [isHexDigit_upperChar]; exact hh1,
+      by rw [isHexDigit_upperChar]; exact hh2, by rw [length_upperQuoted]; exact hi⟩
+
+/-- (c) idempotent -/
+theorem upper_idempotent (s : Str) : upperQuoted (upperQuoted s) = upperQuoted s :=
+  upperQuoted_idem s
+
+/-- `upper_quoted` leaves a string alone exactly when each of its escapes is upper-case -/
+theorem upper_fixed_iff (s : Str) :
+    upperQuoted s = s ↔
+      ∀ a h1 h2 b, s = a ++ '%' :: h1 :: h2 :: b → isHexDigit h1 = true → isHexDigit h2 = true →
+        isUpperHex h1 = true ∧ isUpperHex h2 = true := by
+  constructor
+  · intro hfix a h1 h2 b e hh1 hh2
+    exact upper_escapes_upper s a b h1 h2 (by rw [hfix]; exact e) hh1 hh2
+  · intro hall
+    have : (tokens s).map upperTok = tokens s := by
+      apply map_eq_self
+      intro t ht
+      cases t with
+      | raw c => rfl
+      | stray => rfl
+      | esc h1 h2 =>
+        obtain ⟨ta, tb, e⟩ := List.append_of_mem ht
+        have hw := wf_tokens s _ ht
+        have hs : s = render ta ++ '%' :: h1 :: h2 :: render tb := by
+          conv => lhs; rw [← Quote.render_tokens s, e]
+          simp [render_append, renderTok]
+        obtain ⟨u1, u2⟩ := hall _ _ _ _ hs hw.1 hw.2
+        simp only [upperTok, ((isUpperHex_iff_fixed h1).1 u1).2, ((isUpperHex_iff_fixed h2).1 u2).2]
+    show render ((tokens s).map upperTok) = s
+    rw [this, Quote.render_tokens]
+
+/-- (d) the output decodes to the same bytes as the input -/
+theorem upper_pct (s : Str) : pctStr (upperQuoted s) = pctStr s := by
+  simp only [pctStr, upper_tokens, pct_map_upperTok]
+
+/-- (d) raw delimiters and stray percent signs: as many in the output as in the input (with
+`upper_tokens`: the same ones at the same places) -/
+theorem upper_delimiters (s : Str) (d : Char) :
+    (tokens (upperQuoted s)).count (.raw d) = (tokens s).count (.raw d) ∧
+    (tokens (upperQuoted s)).count .stray = (tokens s).count .stray := by
+  rw [upper_tokens]
+  exact ⟨count_raw_map_upperTok d _, count_stray_map_upperTok _⟩
+
+/-- `upper_quoted` and a safe unquoter can be applied in either order -/
+theorem upper_commutes_unquote (U : List UInt8) (hU : (0x25 : UInt8) ∈ U) (s : Str) :
+    safelyUnquote U (upperQuoted s) = upperQuoted (safelyUnquote U s) :=
+  safelyUnquote_upperQuoted U hU s
+
+/-- `upper_quoted` and `safely_quote` can be applied in either order -/
+theorem upper_commutes_quote (s : Str) : safelyQuote (upperQuoted s) = upperQuoted (safelyQuote s) :=
+  safelyQuote_upperQuoted s
+
+/-- what `canonicalize_url` / `normalize_url` do — `upper_quoted` on the whole URL first, the
+safe unquoters (and `safely_quote`) on its components afterwards — leaves only upper-case
+escapes: the later steps do not bring a lower-case escape back -/
+theorem upper_kept_by_quoters (U : List UInt8) (hU : (0x25 : UInt8) ∈ U) (s : Str)
+    (h : upperQuoted s = s) :
+    upperQuoted (safelyUnquote U s) = safelyUnquote U s ∧ upperQuoted (safelyQuote s) = safelyQuote s := by
+  rw [← upper_commutes_unquote U hU, ← upper_commutes_quote, h]
+  exact ⟨rfl, rfl⟩
+
+example :
+    upperQuoted "%c3%A9%e9%zz%4%%2fé%aG".toList = "%C3%A9%E9%zz%4%%2Fé%aG".toList ∧
+    upperQuoted "a%2f".toList ≠ "a%2f".toList ∧
+    EscDigitAt "a%2f".toList 2 ∧ EscDigitAt "a%2f".toList 3 ∧ ¬ EscDigitAt "%zf%".toList 2 := by
+  refine ⟨by decide +kernel, by decide +kernel, ⟨['a'], '2', 'f', [], rfl, rfl, rfl, .inl rfl⟩,
+    ⟨['a'], '2', 'f', [], rfl, rfl, rfl, .inr rfl⟩, ?_⟩
+  rintro ⟨a, h1, h2, b, e, hh1, hh2, hi⟩
+  match a, e with
+  | [], e => simp at e; obtain ⟨rfl, _⟩ := e; revert hh1; decide
+  | [x], e => simp at e
+  | [x, y], e => simp at e
+  | x :: y :: z :: r, e => simp at hi
 
 /-! ## non-vacuity: the four regenerated configurations on a string with every kind of token -/
 
